@@ -164,8 +164,10 @@ CHECKS = {
     },
     "C10": {
         "lean": ["DrummerVerif.Props.C10"],
-        "streams": [dbstream("c10", 250, 4000, ["res", "Requests", "Outgoing"]), dbstream("general", 150, 2000, ["res", "Requests", "Outgoing"])],
-        "rule": RULE_DB % "c10 (request batches for arbitrary subsets of up to 6 addresses, possibly empty, interleaved with reports; a lost reply = the host reports again) and general",
+        "streams": [dbstream("c10", 250, 4000, ["res", "Requests", "Outgoing"], replicas=True), dbstream("general", 150, 2000, ["res", "Requests", "Outgoing"]),
+                    {"cmd": "apisrv", "driver": "ApiDriver", "sections": None, "eval_re": r"^case:", "timeout": 1500,
+                     "args": {"quick": ["-n", "4", "-len", "60"], "thorough": ["-n", "60", "-len", "150"]}}],
+        "rule": RULE_DB % "c10 (request batches for arbitrary subsets of up to 6 addresses, possibly empty, interleaved with reports; a lost reply = the host reports again; a lagging replica that installs a snapshot) and general" + " | the real Drummer service on a real NodeHost (apisrv): replies to reports, incl. a report that cannot be applied",
         "assumptions": DB_ASSUME,
     },
     "C09": {
